@@ -16,7 +16,9 @@ Decided:
          matcher can bind is a name binding offers, and vice versa: a default is never used for a name the URL supplies);
   R02.d  identity: on dispatch -> execute -> inject the values are only moved between dicts, never passed
          through a call (copy/str/...);
-  R02.e  phase isolation: endpoint-phase provides never enter the render-phase availability (R01.d); the parameters of a generated
+  R02.e  phase isolation: endpoint-phase provides never enter the render-phase availability (R01.d); whatever sources the chain
+         builder does let meet in one phase (request provides and the preprovided names reach the other phases) are compared
+         with each other by the conflict check: they share a provider map instance of check_middlewares; the parameters of a generated
          ``next(...)`` are the provides of its middleware in the order declared -- the positional interface through which a
          middleware hands values on: make_chain / compile_chain pass the tuples on unsorted (order-preserving copies only).
 Declined: values third-party middlewares hand to next(); URL conversion values (C05).
@@ -106,6 +108,7 @@ def run(rep):
     g(chain.check_request_layers, rep, 'R02.c', 'R02.d')
     g(chain.check_url_source_agreement, rep, 'R02.c')
     g(chain.check_phase_sets, rep, 'R02.e', rule_pair='R02.e', rule_core_env='R02.e')
+    g(chain.check_conflict_namespaces, rep, 'R02.e')
     g(chain.check_make_chain, rep, 'R02.e', 'R02.e')
     g(check_url_params_fresh, rep, 'R02.d')
     if not rep.gaps:
